@@ -9,81 +9,7 @@ verus! {
 global size_of usize == 8;
 pub type NodeId = u64;
 
-// ---------- trusted std semantics of the iterator chains (R22), stated over the closure's own postcondition ----------
-/// `v.into_iter().map(f).collect::<Vec<_>>()`
-#[verifier::external_body]
-pub fn vx_map_collect<T, U, F: Fn(T) -> U>(v: Vec<T>, f: F) -> (r: Vec<U>)
-    requires forall|x: T| f.requires((x,)),
-    ensures forall|g: spec_fn(T) -> U| (forall|x: T, y: U| f.ensures((x,), y) ==> y == g(x)) ==> r@ == #[trigger] v@.map_values(g),
-{ unimplemented!() }
-/// `v.iter().any(f)`
-#[verifier::external_body]
-pub fn vx_any<T, F: Fn(&T) -> bool>(v: &Vec<T>, f: F) -> (r: bool)
-    requires forall|x: &T| f.requires((x,)),
-    ensures forall|p: spec_fn(T) -> bool| (forall|x: &T, b: bool| f.ensures((x,), b) ==> b == p(*x)) ==> r == #[trigger] any_of(v@, p),
-{ unimplemented!() }
-/// `v.iter().all(f)`
-#[verifier::external_body]
-pub fn vx_all<T, F: Fn(&T) -> bool>(v: &Vec<T>, f: F) -> (r: bool)
-    requires forall|x: &T| f.requires((x,)),
-    ensures forall|p: spec_fn(T) -> bool| (forall|x: &T, b: bool| f.ensures((x,), b) ==> b == p(*x)) ==> r == #[trigger] all_of(v@, p),
-{ unimplemented!() }
-/// `v.retain(f)`: exactly the elements `f` answers true for stay, in their order
-#[verifier::external_body]
-pub fn vx_retain<T, F: Fn(&T) -> bool>(v: &mut Vec<T>, f: F)
-    requires forall|x: &T| f.requires((x,)),
-    ensures forall|p: spec_fn(T) -> bool| (forall|x: &T, b: bool| f.ensures((x,), b) ==> b == p(*x)) ==> final(v)@ == #[trigger] old(v)@.filter(p),
-{ unimplemented!() }
-/// `v.iter().filter_map(f).min()` for an `Option<NonZeroU64>`-valued `f`
-#[verifier::external_body]
-pub fn vx_filter_map_min<T, F: Fn(&T) -> Option<Nonce>>(v: &Vec<T>, f: F) -> (r: Option<Nonce>)
-    requires forall|x: &T| f.requires((x,)),
-    ensures forall|g: spec_fn(T) -> Option<Nonce>| (forall|x: &T, y: Option<Nonce>| f.ensures((x,), y) ==> y == g(*x)) ==> r == opt_min(#[trigger] v@.map_values(g)),
-{ unimplemented!() }
-/// `v.iter().map(f).min()` for an ActorId-valued `f`
-#[verifier::external_body]
-pub fn vx_map_min<T, F: Fn(&T) -> ActorId>(v: &Vec<T>, f: F) -> (r: Option<ActorId>)
-    requires forall|x: &T| f.requires((x,)),
-    ensures forall|g: spec_fn(T) -> ActorId| (forall|x: &T, y: ActorId| f.ensures((x,), y) ==> y == g(*x)) ==> r == id_min(#[trigger] v@.map_values(g)),
-        v@.len() > 0 ==> r is Some,
-{ unimplemented!() }
-/// greatest nonce / id: only here so that a `min` turned into a `max` is judged against the specification instead of being unreadable
-pub open spec fn opt_max(s: Seq<Option<Nonce>>) -> Option<Nonce>
-    decreases s.len(),
-{
-    if s.len() == 0 { None } else {
-        match (opt_max(s.drop_last()), s.last()) {
-            (None, x) => x,
-            (Some(a), None) => Some(a),
-            (Some(a), Some(b)) => if b.v >= a.v { Some(b) } else { Some(a) },
-        }
-    }
-}
-pub open spec fn id_max(s: Seq<ActorId>) -> Option<ActorId>
-    decreases s.len(),
-{
-    if s.len() == 0 { None } else {
-        match id_max(s.drop_last()) {
-            None => Some(s.last()),
-            Some(a) => if id_lt(s.last(), a) { Some(a) } else { Some(s.last()) },
-        }
-    }
-}
-#[verifier::external_body]
-pub fn vx_filter_map_max<T, F: Fn(&T) -> Option<Nonce>>(v: &Vec<T>, f: F) -> (r: Option<Nonce>)
-    requires forall|x: &T| f.requires((x,)),
-    ensures forall|g: spec_fn(T) -> Option<Nonce>| (forall|x: &T, y: Option<Nonce>| f.ensures((x,), y) ==> y == g(*x)) ==> r == opt_max(#[trigger] v@.map_values(g)),
-{ unimplemented!() }
-#[verifier::external_body]
-pub fn vx_map_max<T, F: Fn(&T) -> ActorId>(v: &Vec<T>, f: F) -> (r: Option<ActorId>)
-    requires forall|x: &T| f.requires((x,)),
-    ensures forall|g: spec_fn(T) -> ActorId| (forall|x: &T, y: ActorId| f.ensures((x,), y) ==> y == g(*x)) ==> r == id_max(#[trigger] v@.map_values(g)),
-        v@.len() > 0 ==> r is Some,
-{ unimplemented!() }
-#[verifier::external_body]
-pub fn vx_str_cmp(a: &str, b: &str) -> (r: Ordering)
-    ensures r == str_ord(a@, b@),
-{ unimplemented!() }
 } // verus!
+// @include ../_common/iter_stubs.rs
 // @include ../_common/elect_spec.rs
 // @include ../_common/elect_lemmas.rs
